@@ -89,6 +89,9 @@ impl Val {
             "uuid" => { let b = unhex(l.get(1)?.atom()?)?; Val::Uuid(b.try_into().ok()?) }
             "struct" => { let mut fs = vec![]; for f in &l[1..] { let f = f.list()?; fs.push((f.first()?.atom()?.parse().ok()?, Val::of_sexp(f.get(1)?)?)); } Val::Struct(fs) }
             "list" | "set" => { let t = TT::of_name(l.get(1)?.atom()?)?; let mut xs = vec![]; for v in &l[2..] { xs.push(Val::of_sexp(v)?); } if head == "list" { Val::List(t, xs) } else { Val::Set(t, xs) } }
+            // harness-only shorthands for very large containers (requests that carry them are oracle-only: the model is not asked)
+            "replist" => { let t = TT::of_name(l.get(1)?.atom()?)?; let n: usize = l.get(2)?.atom()?.parse().ok()?; Val::List(t, vec![Val::of_sexp(l.get(3)?)?; n]) }
+            "repmap" => { let k = TT::of_name(l.get(1)?.atom()?)?; let v = TT::of_name(l.get(2)?.atom()?)?; let n: usize = l.get(3)?.atom()?.parse().ok()?; Val::Map(k, v, vec![(Val::of_sexp(l.get(4)?)?, Val::of_sexp(l.get(5)?)?); n]) }
             "map" => { let k = TT::of_name(l.get(1)?.atom()?)?; let v = TT::of_name(l.get(2)?.atom()?)?; let mut kvs = vec![]; for e in &l[3..] { let e = e.list()?; kvs.push((Val::of_sexp(e.first()?)?, Val::of_sexp(e.get(1)?)?)); } Val::Map(k, v, kvs) }
             _ => return None,
         })
